@@ -282,6 +282,27 @@ Theorem C06_failure_reaches_caller_chain :
 Proof. intros sp ft fp c Hv Hns Hft Hfp. apply chain_nosav_failure_reaches_caller; auto. Qed.
 Print Assumptions C06_failure_reaches_caller_chain.
 
+(* the same chains, the CONSUMER fails: it raises c while handling chunk k — every maximal run ends with all threads
+   finished and the caller holding c (the invariant is the same with "no stage fails"; when the consumer's failure
+   fires the caller kills its input mailbox and enters kill-all, from where C06_noticed_failure_shuts_down applies) *)
+Theorem C06_consumer_exception_chain :
+  forall (sp : chain_spec) (k c : nat),
+    valid_chain sp -> ch_nsav sp = repeat 0 (length (ch_caps sp)) -> k < ch_N sp ->
+    failure_reaches_caller (chain_net sp true None (Some (k, false, c))) (chain_init sp true None (Some (k, false, c)))
+                           (chain_main sp) (ch_N sp) c.
+Proof. intros sp k c Hv Hns Hk. apply chain_nosav_consumer_exception; auto. Qed.
+Print Assumptions C06_consumer_exception_chain.
+
+(* ... or it closes the iterator after chunk k: all threads stop on every schedule; through Context.get_iter the caller
+   sees OutsideException, on the processor's own iterator close() returns (GeneratorExit re-raised; needs repair F1) *)
+Theorem C06_consumer_close_stops_all :
+  forall (sp : chain_spec) (k c : nat),
+    valid_chain sp -> ch_nsav sp = repeat 0 (length (ch_caps sp)) -> k < ch_N sp ->
+    failure_reaches_caller (chain_net sp true None (Some (k, true, c))) (chain_init sp true None (Some (k, true, c)))
+                           (chain_main sp) (ch_N sp) (if ch_relay sp then C_OUTSIDE else C_GENEXIT).
+Proof. intros sp k c Hv Hns Hk. apply chain_nosav_consumer_close; auto. Qed.
+Print Assumptions C06_consumer_close_stops_all.
+
 (* an instance far outside what the explorer can enumerate: 6 stages, 40 chunks, mixed capacities, lazy, through
    get_iter; stage 3 fails at chunk 17 *)
 Example C06_chain_instance_6x40 :
